@@ -63,6 +63,15 @@ def gen_cases(rng, tier):
                  rng.pick(['1.5', '2', '0.25'])] for _ in range(rng.randint(1, 8))]
         cases.append({'kind': 'cast_schema', 'rows': rows, 'policy': rng.pick(['raise', 'drop', 'ignore', 'clear'])})
     cases += gen_select_cases(rng, max(16, n // 4))
+    for i in range(max(12, n // 4)):
+        # extract_missing_values: the sentinel cells are reported in an object field and read as null
+        ncols = rng.randint(1, 3)
+        hs = ['c%d' % j for j in range(ncols)]
+        sent = rng.sample(['err1', 'mis1', 'n/a', '-'], rng.randint(1, 2))
+        rows = [[rng.pick(sent) if rng.chance(0.3) else rng.pick(['1', '2', '30', '7']) for _ in hs] for _ in range(rng.randint(1, 6))]
+        cases.append({'kind': 'missing', 'headers': hs, 'rows': rows, 'sent': sent,
+                      'cast': rng.pick([None, 'strings', 'schema', 'nothing']),
+                      'source': rng.pick([None, None, hs[0], [hs[-1]]]), 'target': rng.pick([None, 'mv'])})
     return cases
 
 
@@ -153,6 +162,21 @@ def run_impl(case):
             return {'records': [list(r) for r in csv.reader(io.StringIO(case['text'], newline=''))]}
         except csv.Error as e:
             return {'error': 4, 'exc': str(e)}
+    if k == 'missing':
+        text = write_csv_file(case['headers'], case['rows'])
+        path = os.path.join(scratch(), 'm_%s.csv' % digest(case))
+        open(path, 'w', newline='', encoding='utf-8').write(text)
+        emv = {}
+        if case['source'] is not None:
+            emv['source'] = copy.deepcopy(case['source'])
+        if case['target'] is not None:
+            emv['target'] = case['target']
+        kw = {'cast_strategy': case['cast']} if case['cast'] else {}
+        out = run_results([], [Load(path, name='res', override_schema={'missingValues': list(case['sent'])},
+                                    extract_missing_values=(emv or True), **kw)])
+        if 'error' in out:
+            return {'error': out['error'], 'exc': out['exc']}
+        return {'rows': rows_enc(out['rows'][0]), 'fields': field_names(out['dp'], 0)}
     if k == 'cast_schema':
         text = write_csv_file(['n', 's', 'm'], case['rows'])
         path = os.path.join(scratch(), 'c_%s.csv' % digest(case))
@@ -254,6 +278,28 @@ def oracle(case, out):
             return 'csv writer produced text the reader rejects'
         return None if back == [[str(c) for c in r] for r in case['records']] else None   # reference behaviour; compared with the model only
     if k == 'csv_read':
+        return None
+    if k == 'missing':
+        hs, target = case['headers'], case['target'] or 'missingValues'
+        src = case['source']
+        src = hs if src is None else ([src] if isinstance(src, str) else src)
+        if 'error' in out:
+            return 'load(extract_missing_values, cast_strategy=%r) failed on a well-formed file: %s' % (case['cast'], out['exc'])
+        if out['fields'] != hs + [target]:
+            return 'extract_missing_values: fields %r, expected %r' % (out['fields'], hs + [target])
+        got = rows_dec(out['rows'])
+        if len(got) != len(case['rows']):
+            return 'extract_missing_values: %d rows from %d data lines' % (len(got), len(case['rows']))
+        for r, g in zip(case['rows'], got):
+            exp_map = dict((h, c) for h, c in zip(hs, r) if c in case['sent'] and h in src)
+            if g.get(target) != exp_map:
+                return 'extract_missing_values: row %r reports %r, the sentinel cells are %r' % (r, g.get(target), exp_map)
+            for h, c in zip(hs, r):
+                if c in case['sent']:
+                    if g[h] is not None:
+                        return 'a missing value %r was delivered as %r' % (c, g[h])
+                elif str(g[h]) != c:
+                    return 'cell %r was delivered as %r' % (c, g[h])
         return None
     if k == 'cast_schema':
         rows = case['rows']
